@@ -237,12 +237,16 @@ def _apply(S, t, led, op, i):
             raise Violation("start-accepted-iff-price-available", "_player_add_request", "two start presses in one loop iteration with %s unit(s) (price %s): %d player(s) added, the balance pays for %d" % (
                 _units(t) if False else led.units + want * led.upg, led.upg, added, want))
     elif op == "end_game":
+        ended_at = [t.loop.time()]
         if m.game:
+            # the expiry periods restart at the instant the game mode has stopped (not when this operation returns)
+            key = m.events.add_handler("mode_game_stopped", lambda **kwargs: ended_at.__setitem__(0, t.loop.time()), priority=10**6)
             m.game.end_game()
             t.advance_time_and_run(0.5)
+            m.events.remove_handler_by_key(key)
             if m.game is not None:
                 raise Violation("harness", "end_game", "game did not end")
-        led.end_game(t.loop.time())
+        led.end_game(ended_at[0])
     elif op == "toggle":
         m.events.post("toggle_credit_play")
         t.advance_time_and_run(0.01)
